@@ -14,6 +14,7 @@ import (
 	"path/filepath"
 	"sort"
 	"strconv"
+	"strings"
 	"sync"
 	"testing"
 	"time"
@@ -327,6 +328,9 @@ func (ck *Check) Main(t *testing.T) {
 	files, _ := filepath.Glob(filepath.Join(Root(), "replays", ck.ID, "reg-*.json"))
 	sort.Strings(files)
 	for _, p := range files {
+		if ck.Part != "" && !strings.HasPrefix(filepath.Base(p), "reg-"+ck.Part+"-") {
+			continue // a regression input of another test of this property
+		}
 		c, b, err := decode(p)
 		if err != nil {
 			t.Fatalf("regression %s: %v", p, err)
